@@ -62,18 +62,26 @@ def recompile(out, rng, res1, opts1, base_profile, name, want, introspect=True):
     returns the CompileResult of the last generation.  Its `streams` are those captured in the FIRST generation (an already
     compiled operator is not generated again) carrying the command words found in the FINAL file, followed by whatever
     the last generation generated itself."""
+    from ethosu.vela.tensor import TensorAddressMap
+
     n_gen = 3 if rng.random() < 0.34 else 2
     models, statuses, all_opts = [res1.out_model], [res1.status], [list(opts1)]
     res = res1
+    # every compilation starts by clearing the global tensor -> address map (compiler_driver): keep the first generation's
+    # entries, they are the side information (tensor addresses) of its streams; keys are per-tensor uuids, so they cannot clash
+    saved_addresses = TensorAddressMap.address_map
     for g in range(2, n_gen + 1):
         opts = next_opts(rng, opts1, base_profile)
-        pipeline.reset_process_state()
+        # no reset of the process state in between: the first generation's tensor objects (their addresses live in
+        # TensorAddressMap) are still needed for the side information of its streams; history independence is C14's subject
         res = pipeline.compile_net(models[-1], opts, name=f"{name}_vela" + "_vela" * (g - 2), introspect=introspect)
         all_opts.append(opts)
         statuses.append(res.status)
         if res.status != "ok" or res.out_model is None:
             break
         models.append(res.out_model)
+    for k_, v_ in saved_addresses.items():
+        TensorAddressMap.address_map.setdefault(k_, v_)
     out["gen_count"] = len(all_opts)
     out["gen_opts"] = all_opts
     out["gen_status"] = statuses
